@@ -14,7 +14,7 @@ import gen
 from gen import F, enc_label, dec_label, LabelTable, coq_obs
 import w_c17_py as PYK
 
-KIND_WEIGHTS = [('gate', 30), ('comb', 14), ('mwis', 14), ('mult', 2), ('multwire', 2), ('qap', 6), ('magic', 4),
+KIND_WEIGHTS = [('gate', 30), ('comb', 14), ('mwis', 14), ('mult', 2), ('multwire', 2), ('qap', 6), ('magic', 4), ('sat', 8),
                 ('knapsack', 10), ('binpacking', 8), ('multiknapsack', 8), ('random', 14)]
 STRENGTHS = ['1/2', '1', '2', '3']
 GATES = {'and': ('and_gate', 3, 'GAnd'), 'or': ('or_gate', 3, 'GOr'), 'xor': ('xor_gate', 4, 'GXor'),
@@ -60,6 +60,14 @@ def gen_case(rng, tier):
         if rng.random() < 0.3:
             D = [[str(Fraction(v, 2)) for v in r] for r in D]
         return {"kind": kind, "n": n, "D": D, "F": F, "form": rng.choice(['list', 'array'])}
+    if kind == 'sat':
+        fn = rng.choice(['nae3sat', '2in4sat', 'kmcsat'])
+        k = {'nae3sat': 3, '2in4sat': 4}.get(fn) or rng.randint(1, 4)
+        n = rng.randint(k, 6)
+        labels = rng.sample(POOL, n) if rng.random() < 0.4 else None
+        return {"kind": kind, "fn": fn, "k": k, "n": n, "labels": None if labels is None else [enc_label(x) for x in labels],
+                "num_clauses": rng.randint(0, 7), "plant": rng.choice([True, False, None]),
+                "seed": rng.choice([0, 1, rng.randrange(1 << 31)]), "seed_form": rng.choice(['int', 'int', 'generator'])}
     if kind == 'magic':
         return {"kind": kind, "n": rng.choice([1, 2, 3, 3, 3, 4]), "power": rng.choice([1, 1, 2, None]),
                 "rseed": rng.randrange(1 << 30)}
@@ -390,6 +398,55 @@ def cqm_term(c, last):
 
 QAP_ASYMMETRIC = False
 
+def run_sat(c):
+    k, n, m = c["k"], c["n"], c["num_clauses"]
+    plant = bool(c["plant"])
+    feats = {"kind": "sat", "fn": c["fn"], "plant": c["plant"]}
+    labels = None if c["labels"] is None else [dec_label(x) for x in c["labels"]]
+    arg = n if labels is None else labels
+
+    def call():
+        kw = {"seed": c["seed"] if c["seed_form"] == 'int' else np.random.default_rng(c["seed"])}
+        if c["plant"] is not None:
+            kw["plant_solution"] = c["plant"]
+        if c["fn"] == 'nae3sat':
+            return DG.random_nae3sat(arg, m, **kw)
+        if c["fn"] == '2in4sat':
+            return DG.random_2in4sat(arg, m, **kw)
+        from dimod.generators.satisfiability import random_kmcsat
+        return random_kmcsat(arg, k, m, **kw)
+    bqm = call()
+    py_fail = None
+    if bqm.vartype is not dimod.SPIN:
+        py_fail = f"vartype {bqm.vartype}"
+    want = list(range(n)) if labels is None else labels
+    if set(bqm.variables) != set(want) or len(bqm.variables) != n:
+        return {"coq": None, "features": feats, "py_fail": f"variables {list(bqm.variables)!r}, expected {want!r}"}
+    b2 = call()
+    if not bqm.is_equal(b2) or b2 is bqm:
+        py_fail = f"two calls with seed {c['seed']} give different models"
+        feats["what"] = "seed"
+    if any(F(b) != 0 for b in bqm.linear.values()) or F(bqm.offset) != 0:
+        py_fail = "non-zero linear bias or offset"
+    # replay of the documented sampling: k distinct variables and k signs per clause (rejection when planting)
+    g = np.random.default_rng(c["seed"])
+    clauses = []
+    for _ in range(m):
+        vs = g.choice(n, k, replace=False)
+        signs = 2 * g.integers(0, 1, endpoint=True, size=k) - 1
+        while plant and abs(sum(signs)) > 1:
+            signs = 2 * g.integers(0, 1, endpoint=True, size=k) - 1
+        clauses.append([(int(v), int(sg)) for v, sg in zip(vs, signs)])
+    T = LabelTable(want)
+    rows = all_rows(n)
+    arr = 2 * np.array(rows, dtype=np.int8) - 1
+    en = bqm.energies((arr, want))
+    ccl = clist([clist([cpair(cnat(v), cz(sg)) for v, sg in cl]) for cl in clauses])
+    coq = f"(CSat {cnat(k)} {cbool(plant)} {cnat(n)} {ccl} {coq_obs(gen.observe(bqm), T)} {crows(rows, en)})"
+    return {"coq": coq, "py_fail": py_fail, "features": feats, "nontrivial": m > 0 and k > 1,
+            "observed": {"clauses": clauses}}
+
+
 LO_SHU = [[2, 7, 6], [9, 5, 1], [4, 3, 8]]
 DUERER = [[16, 3, 2, 13], [5, 10, 11, 8], [9, 6, 7, 12], [4, 15, 14, 1]]
 
@@ -485,6 +542,8 @@ def run_case(c):
         return run_qap(c)
     if kind == 'magic':
         return run_magic(c)
+    if kind == 'sat':
+        return run_sat(c)
     if kind in PYK.KINDS:
         PYK.LAST.clear()
         r = PYK.run_case(c)
